@@ -142,6 +142,19 @@ def gen_cases(seed, n):
     cases.append(case([T('Xfer', 'out', -6400, tags=['transfer'], c='Transfers', s='X'), T('Xfer2', 'in', 3200, tags=['Transfer'], c='Transfers', s='X'),
                        T('Ref', 'r', -640)]))
     cases.append(case([T('401k', 'inv', 6400, tags=['investment'], c='Invest', s='X'), T('Ref', 'r', -16)], views=VIEWSETS[3]))
+    # merchants whose transactions do not all carry the same special tag (tag-only rules hit some rows only)
+    for tg in (['income'], ['Income'], ['TRANSFER'], ['investment'], ['Investment', 'x'], ['transfer', 'income']):
+        cases.append(case([T('PayPal', 'buy', 2560, c='Shopping', s='Online'), T('PayPal', 'buy2', 3840, c='Shopping', s='Online'),
+                           T('PayPal', 'payout', -32000, tags=tg, c='Shopping', s='Online'), T('Grocer', 'g', 1632)]))
+        cases.append(case([T('PayPal', 'in', 6400, tags=tg, c='Shopping', s='Online'), T('PayPal', 'refund', -640, c='Shopping', s='Online'),
+                           T('Ref', 'r', -192, c='Bills', s='Power')], views=VIEWSETS[3]))
+    # refunds netted inside a merchant, transfer-tagged net outflow next to real refunds
+    cases.append(case([T('Outfitter', 'buy', 1280), T('Outfitter', 'return', -3200), T('Airline', 'refund', -6400, c='Travel', s='Air'),
+                       T('Grocer', 'g', 5120)]))
+    cases.append(case([T('Outfitter', 'buy', 3200), T('Outfitter', 'return', -1280), T('Airline', 'refund', -6400, c='Travel', s='Air')]))
+    cases.append(case([T('Bank', 'to savings', -64000, tags=['transfer'], c='Transfers', s='X'), T('Bank', 'back', 6400, tags=['transfer'], c='Transfers', s='X'),
+                       T('Airline', 'refund', -6400, c='Travel', s='Air'), T('Grocer', 'g', 5120)]))
+    cases.append(case([T('Bank', 'to savings', -64000, tags=['Transfer'], c='Transfers', s='X'), T('Grocer', 'g', 5120)], views=VIEWSETS[2]))
     for vs in VIEWSETS:
         cases.append(case([T('Acme', 'plain', 640), T('Bolt', 'p2', 320, c='Bills', s='Power'), T('Ref', 'r', -192)], views=vs))
         cases.append(case([T('Ref', 'r', -192), T('Ref2', 'r', -16, c='Bills', s='Power')], views=vs, cur=CURRENCIES[2]))
@@ -218,33 +231,39 @@ def grab(text, pats):
     return out
 
 
-MD_PATS = {'income': r'^\| Income \| (.*) \|$', 'spending': r'^\| Spending \| (.*) \|$', 'credits': r'^\| Credits/Refunds \| (.*) \|$',
-           'cash_flow': r'^\| \*\*Net Cash Flow\*\* \| (.*) \|$', 'transfers_in': r'^\| In \| (.*) \|$', 'transfers_out': r'^\| Out \| (.*) \|$',
-           'transfers_net': r'^\| \*\*Net Transfers\*\* \| (.*) \|$'}
-TXT_PATS = {'income': r'^Income:(.*)$', 'spending': r'^Spending:(.*)$', 'credits': r'^Credits/Refunds:(.*)$', 'cash_flow': r'^Net Cash Flow:(.*)$',
-            'transfers_in': r'^In:(.*)$', 'transfers_out': r'^Out:(.*)$', 'transfers_net': r'^Net Transfers:(.*)$'}
-SEC_PATS = {'income': r'^\s*Income:(.*)$', 'spending': r'^\s*Spending:(.*)$', 'credits': r'^\s*Credits:(.*)$', 'cash_flow': r'^\s*Cash Flow:(.*)$'}
+# (figure, regex for the printed amount, printed negated?) — EVERY place a format prints one of the figures
+MD_PATS = [('income', r'^\| Income \| (.*) \|$', False), ('spending', r'^\| Spending \| (.*) \|$', True),
+           ('credits', r'^\| Credits/Refunds \| (.*) \|$', False), ('credits', r'^\| \*\*Total\*\* \| \| \*\*(.*)\*\* \|$', False),
+           ('cash_flow', r'^\| \*\*Net Cash Flow\*\* \| (.*) \|$', False), ('transfers_in', r'^\| In \| (.*) \|$', False),
+           ('transfers_out', r'^\| Out \| (.*) \|$', False), ('transfers_net', r'^\| \*\*Net Transfers\*\* \| (.*) \|$', False)]
+TXT_PATS = [('income', r'^Income:(.*)$', False), ('spending', r'^Spending:(.*)$', True), ('credits', r'^Credits/Refunds:(.*)$', False),
+            ('credits', r'^TOTAL CREDITS\s(.*)$', False), ('spending', r'^TOTAL\s.*?/mo (.*)$', False),
+            ('cash_flow', r'^Net Cash Flow:(.*)$', False), ('transfers_in', r'^In:(.*)$', False), ('transfers_out', r'^Out:(.*)$', False),
+            ('transfers_net', r'^Net Transfers:(.*)$', False)]
+SEC_PATS = [('income', r'^\s*Income:(.*)$', False), ('spending', r'^\s*Spending:(.*)$', True), ('spending', r'^TOTAL SPENDING:\s*(.*?)/yr', False),
+            ('credits', r'^\s*Credits:(.*)$', False), ('cash_flow', r'^\s*Cash Flow:(.*)$', False)]
+# occurrences that must be present in every rendering (the others are conditional tables)
+REQUIRED = {'markdown': {'income', 'spending', 'credits', 'cash_flow', 'transfers_in', 'transfers_out', 'transfers_net'},
+            'text': {'income', 'spending', 'credits', 'cash_flow', 'transfers_in', 'transfers_out', 'transfers_net'},
+            'sections': {'income', 'spending', 'cash_flow'}}
 STAT_KEY = {'income': 'income_total', 'spending': 'spending_total', 'credits': 'credits_total', 'cash_flow': 'cash_flow',
             'transfers_in': 'transfers_in', 'transfers_out': 'transfers_out', 'transfers_net': 'transfers_net'}
-# the sign each format prints in front of the magnitude
-NEGATED = {'markdown': {'spending'}, 'text': {'spending'}, 'sections': {'spending'}}
 
 
 def printed_figures(fmt, text, pats, st, places):
-    bad = []
-    got = grab(text, pats)
-    for k, s in got.items():
-        if s is None:
-            if fmt == 'sections' and k == 'credits' and not st['credits_total'] > 0:
-                continue
-            bad.append((k, 'missing'))
-            continue
-        v = num(s)
-        want = q(st[STAT_KEY[k]], places)
-        if k in NEGATED[fmt]:
-            want = -want
-        if v is None or v != want:
-            bad.append((k, s.strip(), str(want)))
+    """Every printed occurrence of every figure must equal the analysed value (at the format's precision)."""
+    bad, seen = [], set()
+    for k, pat, negated in pats:
+        for m in re.finditer(pat, text, re.M):
+            seen.add(k)
+            v = num(m.group(1))
+            want = q(st[STAT_KEY[k]], places)
+            if negated:
+                want = -want
+            if v is None or v != want:
+                bad.append((k, m.group(0).strip()[:70], str(want)))
+    for k in sorted(REQUIRED[fmt] - seen):
+        bad.append((k, 'missing'))
     return bad
 
 
@@ -257,6 +276,15 @@ def json_known_recomputation(st):
             'income_total': round(inc, 2),
             'transfers_total': round(abs(sum(m['total'] for m in bm if 'transfer' in [t.lower() for t in m['tags']])), 2),
             'net_cash_flow': round(inc - st['total'], 2) if inc > 0 else None}
+
+
+def spec_type(amount, tags):
+    """bucket of one analysed (effective) amount in the category breakdown; None = credit"""
+    low = {t.lower() for t in tags}
+    for w in ('income', 'investment', 'transfer'):
+        if w in low:
+            return w
+    return 'spending' if amount >= 0 else None
 
 
 def txn_obs(t):
@@ -339,6 +367,31 @@ def compare_data(data, st, J):
             v.append(('C12/merchant-id-collision' if explained else 'C12/category-sums',
                       {'sum_of_category_totals': tot, 'analysed_total': st['total_transactions'],
                        'dropped_merchants': [m['name'] for m in dropped]}))
+        # typeTotals: per category = the analysed transactions of the merchants listed there, each classified by
+        # its own tags; summed over the categories = the analysed spending / income / investment / transfer totals
+        bmap0 = {m['name']: m for m in st['by_merchant']}
+        tt_sum = {'spending': 0, 'income': 0, 'investment': 0, 'transfer': 0}
+        tt_bad = None
+        for cn, c in data['categoryView'].items():
+            exp = {'spending': 0, 'income': 0, 'investment': 0, 'transfer': 0}
+            for sub in c['subcategories'].values():
+                for m in sub['merchants'].values():
+                    for t in bmap0.get(m['displayName'], {'transactions': []})['transactions']:
+                        b = spec_type(t['amount'], t['tags'])
+                        if b:
+                            exp[b] += abs(t['amount'])
+            got = c.get('typeTotals')
+            if got != exp and tt_bad is None:
+                tt_bad = {'category': cn, 'typeTotals': got, 'from_analysed_transactions': exp}
+            for k in tt_sum:
+                tt_sum[k] += (got or {}).get(k, 0)
+        all_listed = {m['displayName'] for m in cvm} == set(names) and len(cvm) == len(names)
+        want_tt = {'spending': st['spending_total'], 'income': st['income_total'], 'investment': st['investment_total'],
+                   'transfer': st['transfers_in'] + st['transfers_out']}
+        if tt_bad is None and all_listed and tt_sum != want_tt:
+            tt_bad = {'sum_over_categories': tt_sum, 'analysed_totals': want_tt}
+        if tt_bad is not None:
+            v.append(('C12/placeholder-in-data' if placeholder and any(JS_PH in n for n in names) else 'C12/type-totals', tt_bad))
         for cn, c in data['categoryView'].items():
             subs = list(c['subcategories'].values())
             if c['total'] != sum(s['total'] for s in subs) or c['count'] != sum(s['count'] for s in subs) or \
@@ -578,7 +631,9 @@ Definition chk_embed (c : text * text * text * text * text * list text * option 
   let '(tpl, css, js, j, doc, scr, ext) := c in
   text_eqb (embed tpl css js j) doc && leqb text_eqb (scan MData [] doc) scr && oeqb text_eqb (extract_script doc) ext.
 (* category view and sections *)
-Definition M (n c s : text) (t k : Z) : merchant := {| m_name := n; m_cat := c; m_sub := s; m_total := t; m_count := k; m_txns := [] |}.
+Definition X (a : Z) (tg : list text) : txn := {| t_desc := []; t_amount := a; t_month := []; t_tags := tg; t_source := []; t_extra := [] |}.
+Definition M (n c s : text) (t k : Z) (xs : list txn) : merchant := {| m_name := n; m_cat := c; m_sub := s; m_total := t; m_count := k; m_txns := xs |}.
+Definition tt_eqb := peqb Z.eqb (peqb Z.eqb (peqb Z.eqb Z.eqb)).
 Definition sub_sum (s : subcat) := (s_name s, (s_total s, (s_count s, map (fun p => (fst p, j_name (snd p))) (s_merchants s)))).
 Definition cat_sum (c : category) := (c_name c, (c_total c, (c_count c, map sub_sum (c_subs c)))).
 Definition ids_eqb := leqb (peqb text_eqb text_eqb).
@@ -587,9 +642,11 @@ Definition cat_eqb := peqb text_eqb (peqb Z.eqb (peqb Z.eqb (leqb sub_eqb))).
 Definition sec_sum (p : text * jsection) := (fst p, (sec_title (snd p), map (fun q => (fst q, j_name (snd q))) (sec_merchants (snd p)))).
 Definition sec_eqb := peqb text_eqb (peqb text_eqb ids_eqb).
 Definition chk_view (c : list merchant * list (text * (Z * (Z * list (text * (Z * (Z * list (text * text)))))))
-                        * list (text * list merchant) * list (text * (text * list (text * text)))) : bool :=
-  let '(ms, cv, views, secs) := c in
-  leqb cat_eqb (map cat_sum (category_view ms)) cv && leqb sec_eqb (map sec_sum (sections_view views)) secs.
+                        * list (text * list merchant) * list (text * (text * list (text * text)))
+                        * list (Z * (Z * (Z * Z)))) : bool :=
+  let '(ms, cv, views, secs, tts) := c in
+  leqb cat_eqb (map cat_sum (category_view ms)) cv && leqb sec_eqb (map sec_sum (sections_view views)) secs
+  && leqb tt_eqb (map type_totals (category_view ms)) tts.
 (* export_json figures *)
 Definition chk_figs (c : astats * list (option Z)) : bool :=
   leqb (oeqb Z.eqb) (map (json_fig (fst c)) [FIncome; FSpending; FCredits; FCashFlow; FTransfersNet]) (snd c).
@@ -645,9 +702,14 @@ def model_check(cases, results, strings_io, facts, tier):
         # category view
         if len(views) < (400 if tier == 'quick' else 4000) and all(m['total_ticks'] is not None for m in st['by_merchant']):
             ok = True
-            ms = [f"M {ctext(m['name'])} {ctext(m['category'])} {ctext(m['subcategory'])} {cz(m['total_ticks'])} {cz(m['count'])}"
-                  for m in st['by_merchant']]
-            cv = []
+            if any(t['amount_ticks'] is None for m in st['by_merchant'] for t in m['transactions']):
+                ok = False
+
+            def mterm(m):
+                xs = clist(f"X {cz(t['amount_ticks'] or 0)} {clist(ctext(g) for g in t['tags'])}" for t in m['transactions'])
+                return f"M {ctext(m['name'])} {ctext(m['category'])} {ctext(m['subcategory'])} {cz(m['total_ticks'])} {cz(m['count'])} {xs}"
+            ms = [mterm(m) for m in st['by_merchant']]
+            cv, tts = [], []
             for cn, cat in data['categoryView'].items():
                 subs = []
                 for sn, sub in cat['subcategories'].items():
@@ -662,6 +724,12 @@ def model_check(cases, results, strings_io, facts, tier):
                     ok = False
                     break
                 cv.append(f"({ctext(cn)}, ({cz(int(t))}, ({cz(cat['count'])}, {clist(subs)})))")
+                tt = cat.get('typeTotals') or {}
+                tv = [tt.get(k, 0) * 64 for k in ('spending', 'income', 'investment', 'transfer')]
+                if not all(float(x).is_integer() for x in tv):
+                    ok = False
+                    break
+                tts.append('({}, ({}, ({}, {})))'.format(*[cz(int(x)) for x in tv]))
             vs, secs = [], []
             if st['sections'] is not None:
                 if any(s['name'].lower() != ascii_lower(s['name']) for s in st['sections']):
@@ -669,13 +737,13 @@ def model_check(cases, results, strings_io, facts, tier):
                 bm = {m['name']: m for m in st['by_merchant']}
                 for s in st['sections']:
                     vs.append(f"({ctext(s['name'])}, " + clist(
-                        f"M {ctext(n)} {ctext(bm[n]['category'])} {ctext(bm[n]['subcategory'])} {cz(bm[n]['total_ticks'])} {cz(bm[n]['count'])}"
+                        f"M {ctext(n)} {ctext(bm[n]['category'])} {ctext(bm[n]['subcategory'])} {cz(bm[n]['total_ticks'])} {cz(bm[n]['count'])} []"
                         for n in s['merchants']) + ')')
                 for sid, sec in data['sections'].items():
                     secs.append(f"({ctext(sid)}, ({ctext(sec['title'])}, "
                                 + clist(f"({ctext(k)}, {ctext(m['displayName'])})" for k, m in sec['merchants'].items()) + '))')
             if ok:
-                views.append((ci, f"({clist(ms)}, {clist(cv)}, {clist(vs)}, {clist(secs)})"))
+                views.append((ci, f"({clist(ms)}, {clist(cv)}, {clist(vs)}, {clist(secs)}, {clist(tts)})"))
             else:
                 skipped['inexact_ticks'] += 1
         # export_json figures (compared exactly when every figure is a multiple of 1/4)
